@@ -314,6 +314,7 @@ def build_tasks(tier):
     #     'c=0' on a single chunk, '.file_0' suffix on a single process)
     for (grouped, proc), variant in itertools.product(
             LAYOUTS, [dict(with_m=True), dict(xyz='pre'), dict(xyz='post'),
+                      dict(timelevels=3),
                       dict(always_c=True), dict(with_m=True, xyz='post',
                                                 always_c=True)]):
         for cuts in ((1, 1, 1), (2, 1, 2)):
